@@ -32,7 +32,7 @@ NEG = [('impl', 'MC_JobPlan_impl_q.cfg'), ('impl_big_after_smalls', 'MC_JobPlan_
        ('impl_lone_small', 'MC_JobPlan_impl_lone_small_q.cfg'), ('impl_star_in_loop', 'MC_JobPlan_impl_star_in_loop_q.cfg')]
 
 
-MUTATION_ONLY_ACTIONS = {'SortGiveUp', 'WSwallow', 'LoopInterruptSwallowed'}      # enabled only under Mutation # "none" (negative controls)
+MUTATION_ONLY_ACTIONS = {'SortGiveUp', 'WSwallow', 'LoopInterruptSwallowed', 'AddRGSwallowed', 'IndexErrorSwallowed'}      # enabled only under Mutation # "none" (negative controls)
 
 
 def _mc_design(c, module, cfg, **kw):
